@@ -54,7 +54,7 @@ Definition seed2_out_wrong : list token :=
   [ tIn "service"; tI "s"; tP KLBrace "{"; tPn KAtHandler "@handler"; tI "h";
     tIn "get"; tP KQuo "/"; tI "e"; tP KQuo "/"; tP KColon ":"; tI "id"; tPn KRBrace "}" ].
 Definition seed2_case (ftoks : list token) (fast : api) (fc : list cmt) : case :=
-  mkCase None None true seed2_src [(11, "// fetch one")] (Some (seed2_route (Some (Some (Body false false "Foo"))))) OOk OOk
+  mkCase None None true seed2_src [(11, "// fetch one")] [true] (Some (seed2_route (Some (Some (Body false false "Foo"))))) OOk OOk
          ftoks fc (Some fast) true true false [].
 
 Theorem seed2_response_swallowed_refuted :
@@ -88,7 +88,7 @@ Proof. vm_compute. split; reflexivity. Qed.
 (* comments: dropping a comment that stands at the end of a printed line, inventing one, or
    reordering two is rejected even when lost comments inside one-line constructs are tolerated *)
 Definition cm_case (out : list cmt) : case :=
-  mkCase None None true (print emb) [(3, "// after brace"); (4, "// after Foo")] (Some emb) OOk OOk
+  mkCase None None true (print emb) [(3, "// after brace"); (4, "// after Foo")] [true; true] (Some emb) OOk OOk
          (print emb) out (Some emb) true true false [].
 Theorem comment_checks_refuted :
   prop_ok (cm_case [(3, "// after brace"); (4, "// after  Foo")]) = true /\
@@ -99,7 +99,30 @@ Proof. vm_compute. repeat split; reflexivity. Qed.
 
 (* an inline comment (between a field name and its type) may be lost unless [c_strict] *)
 Definition inl_case (strict : bool) : case :=
-  mkCase None None true (print emb) [(5, "/* c */")] (Some emb) OOk OOk (print emb) [] (Some emb) true true strict [].
+  mkCase None None true (print emb) [(5, "/* c */")] [true] (Some emb) OOk OOk (print emb) [] (Some emb) true true strict [].
 Theorem inline_comment_loss_is_the_known_finding :
   prop_ok (inl_case false) = true /\ prop_ok (inl_case true) = false.
 Proof. vm_compute. split; reflexivity. Qed.
+
+(* the finding C20-comment-dropped excuses a lost comment only between two tokens printed on one
+   line or attached to a construct the formatter deletes -- also in a program in which something
+   IS deleted: here "info ()" and an empty "@doc" go away with the comments (1) above the info
+   block and (5) behind the empty @doc; the comment (2) above the type declaration, the own-line
+   comment (3) inside the struct and the comment (6) at the end of the file must survive *)
+Definition del_api : api :=
+  [ SInfo []; SType ("T", false, DStruct [ (["A"], DBase "int", None) ]);
+    SService None "s" false [ Item (Some (DocLit """""")) "h" (Route "get" (Path [PSeg false (PId "a") []] false) None None) ] ].
+Definition del_cmts : list cmt :=
+  [ (0, "// 1 above info"); (3, "// 2 above type"); (6, "// 3 own line in struct"); (7, "/* 4 inline */");
+    (14, "// 5 behind the empty doc"); (21, "// 6 end of file") ].
+(* 1, 2, 3, 6 stand on lines of their own; 4 and 5 behind the token before them *)
+Definition del_same : list bool := [false; false; false; true; true; false].
+Definition del_case (out : list cmt) : case :=
+  mkCase None None true (print del_api) del_cmts del_same (Some del_api) OOk OOk
+         (print (norm del_api)) out (Some (norm del_api)) true true false [].
+Theorem comment_loss_excuses_are_narrow :
+  prop_ok (del_case [(0, "// 2 above type"); (3, "// 3 own line in struct"); (14, "// 6 end of file")]) = true /\
+  prop_ok (del_case [(3, "// 3 own line in struct"); (14, "// 6 end of file")]) = false /\
+  prop_ok (del_case [(0, "// 2 above type"); (14, "// 6 end of file")]) = false /\
+  prop_ok (del_case [(0, "// 2 above type"); (3, "// 3 own line in struct")]) = false.
+Proof. vm_compute. repeat split; reflexivity. Qed.
